@@ -38,6 +38,9 @@ type Solver struct {
 	LastErr   string
 	seed      int
 	Log       io.Writer
+	Cross     *Solver // optional second solver: every uncached query is asked twice and the verdicts compared
+	CrossN    int
+	CrossBad  int
 }
 
 func StartSolver(name string, timeoutMs int, seed int) (*Solver, error) {
@@ -95,6 +98,9 @@ func (s *Solver) send(txt string) {
 }
 
 func (s *Solver) Close() {
+	if s.Cross != nil {
+		s.Cross.Close()
+	}
 	if s.cmd != nil {
 		s.in.Close()
 		done := make(chan struct{})
@@ -197,6 +203,16 @@ func (s *Solver) CheckQuery(asserts []*Term, model Model) Result {
 	res, vals := s.run(text, vars)
 	s.Seconds += time.Since(t0).Seconds()
 	s.Queries++
+	if s.Cross != nil && res != Unknown {
+		r2, _ := s.Cross.run(text, nil)
+		s.CrossN++
+		if r2 != Unknown && r2 != res {
+			s.CrossBad++
+			s.Errors++
+			s.LastErr = fmt.Sprintf("solver disagreement: %s says %v, %s says %v on:\n%s", s.Name, res, s.Cross.Name, r2, text)
+			res = Unknown
+		}
+	}
 	if res != Unknown {
 		cacheMu.Lock()
 		if len(cache) < cacheMax {
